@@ -54,9 +54,11 @@ Theorem C10_subfield_own_comparison : forall (Arr Opnd Res : Type) (np_binop : v
 Proof. exact own_comparison. Qed.
 Print Assumptions C10_subfield_own_comparison.
 
-(* max/min: np.array(self).max/min with the same reduction, except one-element scaled views (C10_scaled_minmax) *)
-Theorem C10_reduce_routes : forall c multi r,
-  reduce_route c multi r = match c, multi with CScaled, false => RedApplyGrid r | _, _ => RedMaterialised r end.
+(* max/min: np.array(self).max/min with the same reduction and the caller's arguments, except a one-element scaled view
+   called without any argument (C10_scaled_minmax) *)
+Theorem C10_reduce_routes : forall c multi args r,
+  reduce_route c multi args r =
+  match c with CScaled => if multi || args then RedMaterialised r else RedApplyGrid r | _ => RedMaterialised r end.
 Proof. exact reduce_routes. Qed.
 Print Assumptions C10_reduce_routes.
 
@@ -87,19 +89,45 @@ Theorem C10_scaled_index : forall (S O F : Type) (ap : S -> O -> Z -> F) ix (v :
 Proof. exact scaled_index. Qed.
 Print Assumptions C10_scaled_index.
 
-(* the view's own max/min = numpy's on the materialised values: one element per point needs the scaling to be
-   monotone (positive scale) and the order antisymmetric; multi-element views are computed on the materialised values *)
+(* a first-level result is either plain values (a numpy scalar / array: an integer index, one point's elements,
+   v[i, cols], v[row list, col list]) or again a view of the kind a record hands out — never a 1-D view that carries
+   one scale per position *)
+Theorem C10_scaled_result_kinds : forall (S O F : Type) (ap : S -> O -> Z -> F) ix (v r : sview S O F),
+  wf S O F v -> view_index S O F ap ix v = Some r -> is_value S O F r = true \/ wf S O F r.
+Proof. exact index_closed. Qed.
+Print Assumptions C10_scaled_result_kinds.
+
+(* hence any sequence of index expressions (the view's own __getitem__ on views, numpy's on values) *)
+Theorem C10_scaled_chain : forall (S O F : Type) (ap : S -> O -> Z -> F) ixs (v : sview S O F),
+  wf S O F v ->
+  option_map (materialise S O F ap) (chain S O F ap ixs v) = np_chain F ixs (materialise S O F ap v).
+Proof. exact chain_values. Qed.
+Print Assumptions C10_scaled_chain.
+
+(* the view's own max/min = numpy's on the materialised values, with or without an `initial=` argument (the archetype
+   of an argument expressed in scaled values): one element per point without argument needs the scaling to be monotone
+   (positive scale) and the order antisymmetric; everything else is computed on the materialised values *)
 Theorem C10_scaled_minmax : forall (S O F : Type) (ap : S -> O -> Z -> F) (fle : F -> F -> bool),
   (forall s o x y, x <= y -> fle (ap s o x) (ap s o y) = true) ->
   (forall a b, fle a b = true -> fle b a = true -> a = b) ->
-  forall r (v : sview S O F), wf S O F v ->
-  view_reduce S O F ap fle r v = np_reduce F fle r (materialise S O F ap v).
+  forall r init (v : sview S O F), wf S O F v ->
+  view_reduce S O F ap fle r init v = np_reduce F fle r init (materialise S O F ap v).
 Proof. exact scaled_minmax. Qed.
 Print Assumptions C10_scaled_minmax.
 
+(* ... also after any sequence of index expressions *)
+Theorem C10_scaled_chain_minmax : forall (S O F : Type) (ap : S -> O -> Z -> F) (fle : F -> F -> bool),
+  (forall s o x y, x <= y -> fle (ap s o x) (ap s o y) = true) ->
+  (forall a b, fle a b = true -> fle b a = true -> a = b) ->
+  forall ixs r init (v : sview S O F), wf S O F v ->
+  match chain S O F ap ixs v with Some x => view_reduce S O F ap fle r init x | None => None end
+  = match np_chain F ixs (materialise S O F ap v) with Some a => np_reduce F fle r init a | None => None end.
+Proof. exact chain_reduce. Qed.
+Print Assumptions C10_scaled_chain_minmax.
+
 (* the hypotheses of C10_scaled_minmax are satisfiable: x * s + o with s > 0 in exact arithmetic *)
-Theorem C10_scaled_minmax_instance : forall r (v : sview positive Z Z), wf positive Z Z v ->
-  view_reduce positive Z Z ap_Z Z.leb r v = np_reduce Z Z.leb r (materialise positive Z Z ap_Z v).
+Theorem C10_scaled_minmax_instance : forall r init (v : sview positive Z Z), wf positive Z Z v ->
+  view_reduce positive Z Z ap_Z Z.leb r init v = np_reduce Z Z.leb r init (materialise positive Z Z ap_Z v).
 Proof. exact scaled_minmax_Z. Qed.
 Print Assumptions C10_scaled_minmax_instance.
 
@@ -119,8 +147,17 @@ Example C10_nonvacuous :
        (view_index positive Z Z ap_Z (IxPair (ASel [1]%nat) (ASel [2; 0; 1]%nat)) (V2 [[1; 2; 3]; [4; 5; 6]; [7; 8; 9]] [1; 5; 20]%positive [10; -2; 100]))
      = Some (A2 3 [[220; 14; 23]])
   /\ view_index positive Z Z ap_Z (IxPair (AInt 0) (AInt 3)) (V2 [[1; 2; 3]] [1; 5; 20]%positive [10; -2; 100]) = None
-  /\ view_reduce positive Z Z ap_Z Z.leb RMax (V2 [[1; 2; 3]; [4; 5; 6]] [1; 5; 20]%positive [10; -2; 100]) = Some 220
-  /\ view_reduce positive Z Z ap_Z Z.leb RMin (V1 [4; -3; 9] 5%positive 1) = Some (-14).
+  /\ view_reduce positive Z Z ap_Z Z.leb RMax None (V2 [[1; 2; 3]; [4; 5; 6]] [1; 5; 20]%positive [10; -2; 100]) = Some 220
+  /\ view_reduce positive Z Z ap_Z Z.leb RMin None (V1 [4; -3; 9] 5%positive 1) = Some (-14)
+  /\ view_reduce positive Z Z ap_Z Z.leb RMax (Some 50) (V1 [4; -3; 9] 5%positive 1) = Some 50
+  (* v[1, [2, 0]] is plain values; its max is a number *)
+  /\ view_index positive Z Z ap_Z (IxPair (AInt 1) (ASel [2; 0]%nat)) (V2 [[1; 2; 3]; [4; 5; 6]] [1; 5; 20]%positive [10; -2; 100])
+     = Some (VRow [220; 14])
+  /\ match chain positive Z Z ap_Z [IxPair (AInt 1) (ASel [2; 0]%nat)] (V2 [[1; 2; 3]; [4; 5; 6]] [1; 5; 20]%positive [10; -2; 100]) with
+     | Some x => view_reduce positive Z Z ap_Z Z.leb RMax None x | None => None end = Some 220
+  /\ option_map (materialise positive Z Z ap_Z)
+       (chain positive Z Z ap_Z [IxRow (AInt 1); IxInt 2] (V2 [[1; 2; 3]; [4; 5; 6]] [1; 5; 20]%positive [10; -2; 100]))
+     = Some (Sc 220).
 Proof.
   split; [apply nth_error_In with (n := 0%nat); vm_compute; reflexivity|].
   split; [apply nth_error_In with (n := 49%nat); vm_compute; reflexivity|].
